@@ -673,7 +673,7 @@ class Gen:
         # position as a fraction: resolved by the executor against the op's real
         # line-event count observed in a dry count (see executor) -- explicit 'at'
         return {"kind": "inject", "frac": round(r.random(), 4),
-                "flavour": r.choice(["base", "exc"]), "hi": hi}
+                "flavour": r.choice(["base", "exc"]), "hi": hi, "mode": r.choice(["line", "line", "call"])}
 
     def scenario(self):
         r = self.rng
@@ -683,7 +683,7 @@ class Gen:
             clients.append({
                 "c0": r.choice([0.5, 1.5, 2.5]),
                 "depth": r.choice([0, 0, 1]),
-                "extra": r.choice([None, {"ec": 2.0}, {}]),
+                "extra": r.choice([None, {"ec": 2.0 + i}, {"ec": 2.0 + i}, {}]),
             })
         trains = []
         for v in range(cfg["n_train"]):
@@ -707,7 +707,12 @@ class Gen:
         def do_build():
             client = r.randrange(cfg["n_clients"])
             self._has_ec = bool(clients[client]["extra"] and "ec" in clients[client]["extra"])
-            fm = self.formula(cfg)
+            same_text = [x for x in designs if "extra" not in x["fm"]["fams"] or self._has_ec]
+            if same_text and len(trains) > 1 and r.random() < 0.2:
+                # the same formula text again, by (maybe) another caller on (maybe) other data
+                fm = r.choice(same_text)["fm"]
+            else:
+                fm = self.formula(cfg)
             d = {
                 "id": f"d{len(designs)}",
                 "fm": fm,
@@ -747,7 +752,7 @@ class Gen:
             prev = [o for o in ops if o["op"] == "eval" and o["root"] == root and o["part"] == part]
             if kind is None and prev and r.random() < cfg["p_reuse"]:
                 src = r.choice(prev)
-                for key in ("frame", "kind", "idx", "twin", "polluted", "broken"):
+                for key in ("frame", "kind", "idx", "tpos", "twin", "polluted", "broken"):
                     if key in src:
                         op[key] = src[key]
                 rid = f"r{self._oid}"
@@ -767,10 +772,29 @@ class Gen:
                 idx = self.rows_frame(train_spec, fm, d["na_action"])
                 if idx is None:
                     return
-                spec = self.shape_new_frame(F.take_rows(train_spec, idx), fm)
+                rows = F.take_rows(train_spec, idx)
+                tpos = None
+                if r.random() < 0.3:
+                    # training rows mixed with fresh rows (other means, ranges outside the training range,
+                    # seen levels only): the training-row positions must still reproduce the training matrix
+                    fresh = self.fresh_frame(train_spec, fm, n=r.choice([1, 2, 5, 9]))
+                    nf, nr = F.n_rows(fresh), len(idx)
+                    order = ["f"] * nf + ["t"] * nr
+                    r.shuffle(order)
+                    fi, ti = iter(range(nf)), iter(range(nr))
+                    cols = []
+                    for (name, kind_, vals_f, extra), (_, _, vals_t, _) in zip(fresh["cols"], rows["cols"]):
+                        fi, ti = iter(range(nf)), iter(range(nr))
+                        cols.append([name, kind_, [vals_f[next(fi)] if o == "f" else vals_t[next(ti)] for o in order],
+                                     extra])
+                    rows = {"cols": cols, "index": list(range(nf + nr))}
+                    tpos = [i for i, o in enumerate(order) if o == "t"]
+                spec = self.shape_new_frame(rows, fm)
                 fid = self.new_frame_id("N")
                 self.frames[fid] = spec
                 op.update({"frame": fid, "kind": "rows", "idx": idx})
+                if tpos is not None:
+                    op["tpos"] = tpos
             elif kind == "fresh":
                 spec = self.shape_new_frame(self.fresh_frame(train_spec, fm), fm)
                 fid = self.new_frame_id("N")
